@@ -1,6 +1,9 @@
 """Static registry: which engine serves which property, tier sizes, evidence texts."""
 
 ENGINES = {
+    'st_hist': {'name': 'st_hist', 'binary': 'st_hist', 'source': 'st_hist.cpp (+ st_cfg.cpp, st_impl.h, st_common.h)',
+                'kind': 'seeded client histories on Simplex_tree under 7 option sets (+2 sequential-sort builds) in lock-step; environment seams: sort schedule (tbb::parallel_sort shim), adversarial user graph, vertex-range order/duplicates, blocker oracle, edge delivery order; refinement against M1',
+                'configurations': ['default', 'full_featured', 'fast_persistence', 'minimal', 'fast_cofaces', 'stable', 'stable_fast_cofaces', 'default_seq (no TBB)', 'full_featured_seq (no TBB)']},
     'skbl': {'name': 'skbl', 'binary': 'skbl', 'kind': 'seeded edit/contraction histories on Skeleton_blocker_complex, refinement against M1, blockers = minimal non-faces, homotopy invariants', 'configurations': ['Skeleton_blocker_complex<Skeleton_blocker_simple_traits>']},
     'toplex': {'name': 'toplex', 'binary': 'toplex', 'kind': 'seeded client histories on Toplex_map and Lazy_toplex_map in lock-step, refinement against the abstract-complex model M1 after every step', 'configurations': ['Toplex_map + Lazy_toplex_map (lock-step)']},
 }
@@ -12,6 +15,39 @@ COMMON_ASSUME = [
 ]
 
 PROPS = {
+    'C01': {
+        'engine': 'st_hist',
+        'runs': {'quick': 6000, 'thorough': 150000},
+        'level_text': 'seeded search over operation histories of simulated clients (builder: insert_simplex / insert_simplex_and_subfaces with permuted and duplicated vertex ranges; bulk: insert_batch_vertices, clear, insert_graph through an adversarially ordered user graph, expansion; eraser: remove_maximal_simplex, prune_above_filtration, prune_above_dimension incl. negative and too-large arguments; auditor in seeded read order, with long stretches without dimension() so that the lazy dimension flag stays set) executed on every SimplexTreeOptions set in lock-step (sparse labels; contiguous labels for contiguous_vertices) against the abstract complex M1. Full audit: find on every vertex set, values, vertex / simplex / skeleton enumeration, boundary with opposite vertices, star and cofaces of every codimension, counts, dimension(sh), dimension(), upper_bound_dimension, operator== against trees rebuilt by another history (same type and Simplex_tree<default>) and != against a perturbed one; returned (handle, bool) pairs and prune return values. Gated, minimised, replayable. Evidence, not proof (<= 7 labels, dimension <= 4).',
+        'level_note': 'trusted: model M1 (/verif/models/complex.h); generators respect the documented preconditions (no NaN, monotone values on insertion, maximal removal only, insert_graph on an empty tree, labels 0..n-1 under contiguous_vertices)',
+        'technique': 'deterministic simulation: seeded client histories and environment (graph delivery order, duplicates) + reference-model refinement after every step',
+        'rule': 'one evaluation = one plan (clients builder/bulk/eraser/scrambler/auditor interleaved, <= 60 ops, <= 7 labels) executed on all applicable Simplex_tree option sets against M1; non-trivial = at least one mutating op and one full audit; distinct = distinct hash of the sequence of model states',
+        'real': ['gudhi/Simplex_tree.h and sub-headers (GUDHI_USE_TBB code path and sequential path)', 'gudhi/Rips_complex.h', 'gudhi/graph_simplicial_complex.h', 'boost::container flat_map / std::map, boost::intrusive list'], 'stub': ['tbb::parallel_sort -> sim_sort (seeded comparison schedule, /verif/shim/tbb/parallel_sort.h)', 'user graph -> sth::Adversarial_graph (seeded vertex/edge order, orientation, duplicate edges)', 'blocker oracle -> seeded deterministic predicate with re-entrant reads', 'callers -> simulated clients'],
+        'probes_expected': ['probe.insert_graph', 'probe.expansion', 'probe.emptied_by_removal'],
+        'assumptions': COMMON_ASSUME,
+    },
+    'C03': {
+        'engine': 'st_hist',
+        'runs': {'quick': 6000, 'thorough': 150000},
+        'level_text': 'schedules: every filtration sort of the GUDHI_USE_TBB code path goes through a seeded sort (input permutation, pivots, processing order of the halves, leaf size/direction) that also checks the comparator is a strict weak order; each audited state is re-sorted under several sort seeds, in trees rebuilt by other insertion histories, in the sequential-sort build and in every option set: every sequence must be valid (each non-ignored simplex once, values non-decreasing, faces first; also with ignore_infinite_values) and all must be identical. Histories: scrambler client assigns arbitrary non-NaN values / reset_filtration, then make_filtration_non_decreasing must return true iff the least monotone function differs and produce it; prune_above_filtration = sublevel complex with truthful return; extend_filtration / decode_extended_filtration against the cone filtration of the vertex function. Evidence, not proof.',
+        'level_note': 'trusted: model M1, the sim_sort shim; real oneTBB is not used for the verdict (its schedule is not controllable); caller duty clear_filtration() after modifications is honoured by the harness',
+        'technique': 'deterministic simulation: seeded sort schedules behind the tbb::parallel_sort seam + seeded histories, validity and cross-schedule/history/configuration equality oracles',
+        'rule': 'one evaluation = one plan (history ops + audits; every audited state sorted under >= 3 sort schedules, 1 other history, 9 configurations/builds); non-trivial = at least one mutating op and one audit; distinct = distinct hash of the sequence of model states',
+        'real': ['gudhi/Simplex_tree.h and sub-headers (GUDHI_USE_TBB code path and sequential path)', 'gudhi/Rips_complex.h', 'gudhi/graph_simplicial_complex.h', 'boost::container flat_map / std::map, boost::intrusive list'], 'stub': ['tbb::parallel_sort -> sim_sort (seeded comparison schedule, /verif/shim/tbb/parallel_sort.h)', 'user graph -> sth::Adversarial_graph (seeded vertex/edge order, orientation, duplicate edges)', 'blocker oracle -> seeded deterministic predicate with re-entrant reads', 'callers -> simulated clients'],
+        'probes_expected': ['probe.order_sequences', 'probe.mono_changed', 'probe.mono_unchanged', 'probe.extended_filtration'],
+        'assumptions': COMMON_ASSUME,
+    },
+    'C04': {
+        'engine': 'st_hist',
+        'runs': {'quick': 6000, 'thorough': 150000},
+        'level_text': 'the environment is an edge source delivering the vertices and edges of a seeded weighted graph (ties, isolated and missing vertices, sparse or contiguous labels) in a seeded order - in filtration order, vertices first then arbitrarily reordered edges, or mixed - to insert_edge_as_flag for every dim_max in -1..4; after every delivery added_simplices must be exactly M(after) minus M(before) without repetition and the tree must be the clique complex of what was delivered; at the end (after the documented make_filtration_non_decreasing when out of order) it must equal the clique complex, as must insert_graph(adversarially ordered graph with duplicate edges in both orientations)+expansion(d), expansion_with_blockers with a never-blocking oracle, expansion_with_blockers with a seeded predicate that re-enters the tree (largest subcomplex without blocked simplices), and Rips_complex from a distance matrix and from lattice points; all option sets that allow the call. Evidence, not proof (<= 8 vertices).',
+        'level_note': 'trusted: clique-complex model in /verif/models/complex.h; documented undefined behaviour is never generated (existing edge/vertex as flag, edge before its endpoints, duplicate edges with different values)',
+        'technique': 'deterministic simulation: seeded delivery order / duplication / orientation of externally supplied edges and seeded blocker callbacks + per-step reference-model refinement',
+        'rule': 'one evaluation = one plan (one seeded graph, <= 36 delivery ops + finish with 5 one-shot routes) on all applicable option sets; non-trivial = at least one delivery executed and the final comparison done; distinct = distinct hash of the sequence of delivered-graph states',
+        'real': ['gudhi/Simplex_tree.h and sub-headers (GUDHI_USE_TBB code path and sequential path)', 'gudhi/Rips_complex.h', 'gudhi/graph_simplicial_complex.h', 'boost::container flat_map / std::map, boost::intrusive list'], 'stub': ['tbb::parallel_sort -> sim_sort (seeded comparison schedule, /verif/shim/tbb/parallel_sort.h)', 'user graph -> sth::Adversarial_graph (seeded vertex/edge order, orientation, duplicate edges)', 'blocker oracle -> seeded deterministic predicate with re-entrant reads', 'callers -> simulated clients'],
+        'probes_expected': ['probe.flag_in_order', 'probe.flag_out_of_order', 'probe.blocker_calls', 'probe.rips_matrix', 'probe.rips_points'],
+        'assumptions': COMMON_ASSUME,
+    },
     'C17': {
         'engine': 'skbl',
         'level_text': 'seeded search over edit histories (add_vertex, add_edge with and without blockers, add_simplex, remove_star of vertices/edges/simplices through every overload, contract_edge with and without the link condition, start from the simplex-list constructor) with a full audit after every few operations: contains() of every vertex set, complex_simplex_range, counts per dimension, connected components, link_condition, blocker_range = exactly the minimal non-faces of dimension >= 2, Euler characteristic; Betti numbers across contractions under the link condition. Failures are gated, minimised and replayable. Evidence, not proof (<= 8 vertices).',
@@ -52,4 +88,4 @@ NOT_APPLICABLE = {
  'C20': 'immutable combinatorial/geometric pure functions of (triangulation, simplex, point); no history, schedule or fault.',
 }
 _P = 'simulation target (DESIGN.md section 4) whose engine is not finished yet; not claimed until its check is quiet on the unchanged tree for the right reasons'
-PLANNED = {k: _P for k in ['C01', 'C03', 'C04', 'C05', 'C06', 'C07', 'C08', 'C09', 'C15', 'C16', 'C17']}
+PLANNED = {k: _P for k in ['C05', 'C06', 'C07', 'C08', 'C09', 'C15', 'C16', 'C17']}
